@@ -996,7 +996,7 @@ func (c *Ctx) stageRace(refs map[refKey]*Ref, keys []refKey) {
 		return
 	}
 	rng := stream(c.Seed, "race")
-	rounds := 24
+	rounds := 12
 	if c.Tier == "thorough" {
 		rounds = 300
 	}
@@ -1079,6 +1079,30 @@ func (c *Ctx) stageRace(refs map[refKey]*Ref, keys []refKey) {
 		}
 		specs = append(specs, sp)
 	}
+	// sweep: every document rendered concurrently with itself (3 goroutines, own font
+	// configurations): whatever process-wide or per-URL state a render touches is touched by
+	// all three at about the same time
+	sweep := keys
+	if c.Tier == "quick" {
+		// quick: default configuration only
+		sweep = nil
+		for _, k := range keys {
+			if k.Cfg == defaultCfg().String() {
+				sweep = append(sweep, k)
+			}
+		}
+	}
+	for _, k := range sweep {
+		if refs[k].Res.Steps > 4000000 {
+			continue
+		}
+		sp := &Spec{ID: "race/sweep/" + k.Scenario + "/" + k.Cfg, Order: OrderPlan{Mode: "canon"}, Free: true}
+		for t := 0; t < 3; t++ {
+			sp.Tasks = append(sp.Tasks, docOps(refs[k].Sc, refs[k].Cfg, "", false))
+		}
+		specs = append(specs, sp)
+	}
+	pool.n = 8
 	results := pool.Run(specs, nil)
 	c.Pool.Runs += pool.Runs
 	nRace := 0
